@@ -296,6 +296,7 @@ def _run_prog_case(g, case):
             except BaseException as e:  # noqa: BLE001
                 return ("exc", apilib.exc_class(e))
         its, outs = [], []
+        nadv = 0
         for c in case["prog"]:
             if c[0] == "c":
                 api = c[1]
@@ -311,6 +312,11 @@ def _run_prog_case(g, case):
                 outs.append("ret:0")
             else:
                 it = its[c[1]]
+                # every other advance goes through iter() / aiter() first, as a resumed `for` loop, zip or islice would:
+                # for an iterator that is the same object
+                nadv += 1
+                if nadv % 2 == 0:
+                    it = iter(it) if sync else it.__aiter__()
                 r = call(it.__next__) if sync else call(it.__anext__)
                 outs.append(render_end(*r))
         return "EV %s | OUTS %s | REST %d" % (" ".join(trace) or "-", ",".join(outs), len(fake.script))
